@@ -105,6 +105,26 @@ def run(ctx):
         rs = st.jw_sz_restrict_state(vec, sz2 / 2.0, ne2, n, up_index=upf, down_index=dnf)
         if not np.array_equal(np.asarray(rs), vec[got]):
             ctx.violation('C10 jw_sz_restrict_state(custom convention) does not select the sector amplitudes', rp)
+    # ---- jw_get_ground_state_at_particle_number: eigenpair inside the sector, lowest sector eigenvalue, same bit
+    #      convention as get_sparse_operator (numerical: dense reference built from the Coq-tied sparse matrix)
+    for _ in range(N(12, 80)):
+        n = rng.choice([2, 3, 4, 5]); op = rand_nc_op(of, rng, n); H = op + of.hermitian_conjugated(op)
+        full = of.get_sparse_operator(H, n); Fd = np.asarray(full.todense())
+        for ne in range(0, n + 1):
+            sector = [k for k in range(2 ** n) if bin(k).count('1') == ne]
+            rp = {'call': 'jw_get_ground_state_at_particle_number', 'n_qubits': n, 'particle_number': ne, 'terms': {repr(t): repr(c) for t, c in H.terms.items()}}
+            try: e0, psi = st.jw_get_ground_state_at_particle_number(full, ne)
+            except Exception as e:
+                # scipy's ARPACK refuses an identically zero sector block ("Starting vector is zero"); the property only
+                # speaks about the convention of the returned state, so such degenerate blocks are skipped, not judged
+                if not np.any(Fd[np.ix_(sector, sector)]): ctx.stat('ground_state_at_particle_number', 'skipped_zero_block'); continue
+                ctx.violation('C10 jw_get_ground_state_at_particle_number raised %s: %s' % (type(e).__name__, e), rp); continue
+            ref = np.linalg.eigvalsh(Fd[np.ix_(sector, sector)])[0]
+            outside = [k for k in range(2 ** n) if k not in sector]
+            ok = (abs(e0 - ref) < 1e-8 and abs(np.linalg.norm(psi) - 1) < 1e-8 and np.linalg.norm(psi[outside]) < 1e-9 and np.linalg.norm(Fd @ psi - e0 * psi) < 1e-7)
+            ctx.count('ground_state_at_particle_number', 1, nontrivial_key=(n, ne, repr(H.terms)))
+            if not ok:
+                ctx.violation('C10 jw_get_ground_state_at_particle_number: not the normalised lowest eigenpair of the sector (energy %r, reference %r)' % (float(np.real(e0)), float(ref)), rp)
     # ---- expectation_computational_basis_state: lists and sparse vectors, all basis states of n qubits
     for _ in range(N(30, 200)):
         n = rng.choice([2, 3, 4])
